@@ -23,7 +23,7 @@ ST = {"ok": 0, "neg_sqrt": 1, "neg_exponent": 2, "exp_too_large": 3, "log_domain
       "int64_range": 13, "other": 99}
 
 # op name -> (code in C13/Corr.v, relative vm_compute cost)
-OPS = {"sqrt": (1, 1), "sqrt_bd": (2, 2)}
+OPS = {"sqrt": (1, 1), "sqrt_bd": (2, 2), "sigfig": (3, 1)}
 
 
 # ---------------------------------------------------------------------------------------------
@@ -212,11 +212,46 @@ def gen_sqrt(r, n, op):
     return [mk(op, v) for v in vals]
 
 
+def gen_sigfig(r, n):
+    """SigFigRound(d, tenToSigFig): d raw 18-decimal; tenToSigFig mostly 10^s"""
+    out = []
+    ds = around([0, 1, 5, 10, P18 // 10, P18, P18 // 2, 10 ** 16, 10 ** 17 - 10 ** 9, 2 ** 256 * P18 - 2])
+    for d in ds:
+        for s_ in (0, 1, 2, 8, 17, 18, 19, 40, 76, 77):
+            out.append(mk("sigfig", d, 10 ** s_))
+    while len(out) < n:
+        x = r.below(100)
+        s_ = r.choice([r.range(0, 8), r.range(0, 20), r.range(0, 80)])
+        S = 10 ** s_
+        if x < 40:      # exactly on / next to a rounding tie of the kept digit
+            digits = r.range(1, 18)
+            lead = r.range(10 ** (digits - 1), 10 ** digits - 1)           # the kept digits
+            shift = r.range(0, 18)
+            d = (lead * 10 + 5) * 10 ** shift + r.choice([0, 0, 1, -1, 10 ** max(shift - 1, 0)])
+            s_ = digits if r.chance(2, 3) else r.range(0, 20)
+            S = 10 ** s_
+        elif x < 85:
+            d = loguniform(r, 1, 256 + 59)
+        elif x < 90:
+            d = -loguniform(r, 1, 256 + 59)
+        elif x < 95:
+            d = loguniform(r, 1, 200)
+            S = r.choice([0, 2, 3, 250, 999, -10, 10 ** s_ + 1, 2 ** 255, 2 ** 256 - 1])
+        else:
+            d = r.choice([10 ** r.range(0, 40), 10 ** r.range(0, 40) - 1, 10 ** r.range(0, 18) + 1])
+        if abs(S).bit_length() > 256:
+            continue
+        out.append(mk("sigfig", d, S))
+    return out
+
+
 GENERATORS = {
+    "sigfig": gen_sigfig,
     "sqrt": lambda r, n: gen_sqrt(r, n, "sqrt"),
     "sqrt_bd": lambda r, n: gen_sqrt(r, n, "sqrt_bd"),
 }
-COUNTS = {"quick": {"sqrt": 1500, "sqrt_bd": 1500}, "thorough": {"sqrt": 40000, "sqrt_bd": 40000}}
+COUNTS = {"quick": {"sqrt": 1500, "sqrt_bd": 1500, "sigfig": 3000},
+          "thorough": {"sqrt": 40000, "sqrt_bd": 40000, "sigfig": 60000}}
 
 
 def gen_cases(seed, tier, ops=None, scale=1):
@@ -263,7 +298,38 @@ def oracle_sqrt(c, o, prec):
     return []
 
 
+def is_pow10(x):
+    return x > 0 and str(x) == "1" + "0" * (len(str(x)) - 1)
+
+
+def oracle_sigfig(c, o):
+    """moves a value by at most half a unit of the last kept digit; the kept digits: with k the least k >= 0 such that
+    |d|*10^k >= 0.1, the last kept digit has unit 10^-(k+s) for tenToSigFig = 10^s"""
+    d, S = args_of(c)
+    if o["st"] != 0:
+        # loud failure is only expected outside the documented use (d < 0, tenToSigFig not a positive power of ten, or overflow)
+        if d > 0 and is_pow10(S) and d * S < 2 ** 255 * P18 and S * 10 ** 17 < 2 ** 255:
+            return [viol(c, o, "in-domain input failed: %s" % o.get("msg"), kind="unexpected_error")]
+        return []
+    r = int(o["v"][0])
+    if d == 0:
+        return [] if r == 0 else [viol(c, o, "zero moved to %d" % r, kind="sigfig_zero")]
+    if not is_pow10(S):
+        return []
+    k = 0
+    while abs(d) * 10 ** k < P18 // 10:
+        k += 1
+    D = S * 10 ** k
+    out = []
+    if 2 * abs(r - d) * D > P18:
+        out.append(viol(c, o, "moved by %s units of the last kept digit (more than one half): result %d" % (Fraction(abs(r - d) * D, P18), r), kind="sigfig_half_unit"))
+    if P18 % D == 0 and r % (P18 // D) != 0:
+        out.append(viol(c, o, "result %d keeps digits below the last kept digit (unit 10^18/%d)" % (r, D), kind="sigfig_not_rounded"))
+    return out
+
+
 ORACLES = {
+    "sigfig": oracle_sigfig,
     "sqrt": lambda c, o: oracle_sqrt(c, o, P18),
     "sqrt_bd": lambda c, o: oracle_sqrt(c, o, P36),
 }
@@ -397,6 +463,61 @@ def replay(path):
     for m in out.mismatches:
         print("mismatch:", m["what"])
     return 1 if (out.oracle_violations or out.mismatches) else 0
+
+
+# ---------------------------------------------------------------------------------------------
+# unit check of this machinery (development aid):  python3 -c "from props import c13; c13.selftest()"
+# the oracle must flag a hand-perturbed observation; case_ok must reject a perturbed expectation
+# ---------------------------------------------------------------------------------------------
+def _bump(o, delta):
+    return dict(o, v=[str(int(o["v"][0]) + delta)] + o["v"][1:])
+
+
+PERTURB = {   # op -> list of (label, function(case, obs) -> perturbed obs or None)
+    "sqrt": [("root+1", lambda c, o: _bump(o, 1)), ("root-1", lambda c, o: _bump(o, -1) if int(o["v"][0]) > 0 else None)],
+    "sqrt_bd": [("root+1", lambda c, o: _bump(o, 1)), ("root-1", lambda c, o: _bump(o, -1) if int(o["v"][0]) > 0 else None)],
+    "sigfig": [("one more unit of the kept digit", lambda c, o: _sigfig_perturb(c, o))],
+}
+
+
+def _sigfig_perturb(c, o):
+    d, S = args_of(c)
+    if d <= 0 or not is_pow10(S) or S * 10 ** 17 > P18:
+        return None
+    k = 0
+    while d * 10 ** k < P18 // 10:
+        k += 1
+    return _bump(o, P18 // (S * 10 ** k))
+
+
+def selftest(n=60):
+    binary = common.go_build("c13drv")
+    ok = True
+    for op in OPS:
+        cases = [c for c in GENERATORS[op](Rng(5).fork(op), 400)]
+        obs = common.run_driver(binary, cases)
+        good = [(c, o) for c, o in zip(cases, obs) if o["st"] == 0]
+        step = max(1, len(good) // n)
+        good = good[::step][:n]
+        for label, f in PERTURB.get(op, []):
+            pert = [(c, f(c, o)) for c, o in good]
+            pert = [(c, o) for c, o in pert if o is not None]
+            flagged = sum(1 for c, o in pert if ORACLES[c["op"]](c, o))
+            bad, notes = model_compare([c for c, _ in pert], [o for _, o in pert], "selftest")
+            print("selftest %-10s %-34s oracle flagged %d/%d, case_ok rejected %d/%d %s"
+                  % (op, label, flagged, len(pert), len(bad), len(pert), notes[:1] or ""))
+            if flagged != len(pert) or len(bad) != len(pert) or not pert:
+                ok = False
+        # error observations: an out-of-domain input that returns a number must be flagged
+        errs = [(c, o) for c, o in zip(cases, obs) if o["st"] != 0][:n]
+        if errs:
+            fake = [(c, {"st": 0, "v": ["1"]}) for c, _ in errs]
+            bad, notes = model_compare([c for c, _ in fake], [o for _, o in fake], "selftest")
+            print("selftest %-10s %-34s case_ok rejected %d/%d" % (op, "error replaced by a value", len(bad), len(fake)))
+            if len(bad) != len(fake):
+                ok = False
+    print("selftest", "ok" if ok else "FAILED")
+    return ok
 
 
 SCOPE = "partial: under construction"
